@@ -423,6 +423,26 @@ def timers(ctx: Any) -> List[Ob]:
                     how.append('reaches no user callback (transmits are gated by C17.GATE)')
                 table.append({'site': f'{s.caller.where()}:{s.line}', 'api': nm, 'callback': cb.qual, 'class': how})
                 obs.append(ob(R, s.caller, s.node, f'task {cb.qual} is cancelled at shutdown or quiet after close', bool(how), '; '.join(how) if how else 'reaches user callbacks: ' + '; '.join(b[:3])))
+    # a lookup in progress at close ends quietly (it runs out at its timeout): once the lookup has registered its listener
+    # and may be waiting, nothing it reaches raises of its own accord -- the only routine of the package that raises because
+    # the instance is no longer running (the start-up wait) is called before the lookup starts listening, never from its loop
+    raisers = [g for g in prog.functions.values() if any(isinstance(r, ast.Raise) and r.exc is not None and 'NotRunning' in norm(r.exc) for r in walk_local_ordered(g.node))]
+    if not raisers:
+        raise AnalysisError('anchor vanished: the routine that raises NotRunningException')
+    lk = prog.func('zeroconf._services.info.ServiceInfo.async_request')
+    lcfg = cfg_of(lk.node)
+    listen = [n for n in lcfg.nodes if any(call_name(c) in ('async_add_listener', 'add_listener') for c in n.calls())]
+    waits = [n for n in lcfg.nodes if any(call_name(c) == 'async_wait' for c in n.calls())]
+    if not listen or not waits:
+        raise AnalysisError('anchor vanished: listener registration / wait of the lookup loop')
+    raising_nodes = []
+    for n in lcfg.nodes:
+        for c in n.calls():
+            for s_ in cg.sites.get(lk.full, []):
+                if s_.node is c and any(r in cg.closure(list(s_.targets), include_deferred=False) for r in raisers):
+                    raising_nodes.append(n)
+    late = [n for n in raising_nodes if any(lcfg.path_avoiding(a, lambda x, n=n: x is n, lambda x: False) is not None for a in listen + waits)]
+    obs.append(ob(R, lk, late[0].ast if late else (raising_nodes[0].ast if raising_nodes else 'await zc.async_wait_for_start()'), 'a lookup that has started listening or waiting never reaches the routine that raises NotRunningException (it ends quietly when the instance closes under it)', not late, f'{len(late)} call(s) reachable after the lookup started listening / from its loop'))
     ctx.counters['timer_table'] = table
     ctx.counters['excluded'] = [
         'AsyncEngine.close called from the loop thread: outside the quantifier (close from a non-loop thread / async_close)',
